@@ -38,6 +38,8 @@ def rhash(obj) -> str:
 def leaf_data(p):
     shape = tuple(p["shape"])
     dt = np.dtype(p["dtype"])
+    if p.get("labels") is not None:
+        return np.asarray(p["labels"], dtype=dt).reshape(shape)
     n = int(np.prod(shape)) if len(shape) else 1
     rs = np.random.RandomState(p.get("seed", 0) % (2**31))
     if p.get("sorted"):
@@ -84,6 +86,37 @@ def _ub_neg(a):
 
 
 USER_FUNCS = {"double": _ub_double, "addid": _ub_addid, "neg": _ub_neg}
+
+
+def _group_sum_block(a, by, axis, num_groups, dtype, start=0):
+    """Per-block group sums along `axis` (labels `by` 1-D, groups start..start+num_groups-1)."""
+    a = np.asarray(a)
+    by = np.asarray(by).reshape(-1)
+    shape = list(a.shape)
+    shape[axis] = num_groups
+    out = np.zeros(shape, dtype=dtype)
+    am = np.moveaxis(a, axis, 0)
+    om = np.moveaxis(out, axis, 0)
+    for k in range(am.shape[0]):
+        om[int(by[k]) - start] += am[k]
+    return out
+
+
+def _gb_func(a, by, axis=None, intermediate_dtype=None, num_groups=None):
+    return _group_sum_block(a, by, axis, num_groups, intermediate_dtype)
+
+
+def _gb_combine(a, axis=None, dummy_axis=None, dtype=None, keepdims=None):
+    # combine over the dummy axis only, to preserve grouping along the group axis
+    return np.sum(a, dtype=dtype, axis=dummy_axis, keepdims=keepdims)
+
+
+def _gbb_func(arr, by, axis=None, start_group=None, num_groups=None, groupby_dtype=None):
+    return _group_sum_block(arr, by, axis, num_groups, groupby_dtype, start=start_group)
+
+
+def _np_group_sum(a, by, axis, num_groups, dtype):
+    return _group_sum_block(a, by, axis, num_groups, dtype)
 
 
 # ---------------------------------------------------------------------------------------------
@@ -426,6 +459,24 @@ def np_eval_node(node, vals):
         return np.diff(ins[0], n=p.get("n", 1), axis=p.get("axis", -1), **kw)
     if op == "searchsorted":
         return np.searchsorted(ins[0], ins[1], side=p.get("side", "left"))
+    if op == "groupby_sum":
+        return _np_group_sum(ins[0], ins[1], p["axis"] % ins[0].ndim, p["num_groups"], np.dtype(p["dtype"]))
+    if op == "groupby_blockwise_sum":
+        return _np_group_sum(ins[0], np.asarray(p["by"]), p["axis"] % ins[0].ndim, p["num_groups"], np.dtype(p["dtype"]))
+    if op == "merge_chunks":
+        return ins[0]
+    if op == "map_blocks_addid":
+        # block_id-dependent user function: evaluated per block of the declared chunk grid of the input
+        a = ins[0]
+        out = np.array(a, copy=True)
+        import itertools
+
+        ch = p["in_chunks"]
+        nb = [max(1, -(-d // c)) for d, c in zip(a.shape, ch)]
+        for bid in itertools.product(*[range(n) for n in nb]):
+            sl = tuple(slice(b * c, min(d, (b + 1) * c)) for b, c, d in zip(bid, ch, a.shape))
+            out[sl] = _ub_addid(a[sl], block_id=bid)
+        return out
     if op == "isin":
         return np.isin(ins[0], ins[1], invert=p.get("invert", False))
     if op == "pad":
@@ -652,6 +703,31 @@ def cu_eval_node(node, vals, env, idx):
         return xp.diff(ins[0], n=p.get("n", 1), axis=p.get("axis", -1), **kw)
     if op == "searchsorted":
         return xp.searchsorted(ins[0], ins[1], side=p.get("side", "left"))
+    if op == "groupby_sum":
+        from cubed.core.groupby import groupby_reduction
+
+        dt = np.dtype(p["dtype"])
+        return groupby_reduction(
+            ins[0], ins[1], func=_gb_func, combine_func=_gb_combine, axis=p["axis"] % ins[0].ndim,
+            intermediate_dtype=dt, dtype=dt, num_groups=p["num_groups"],
+            **({"split_every": dec_split_every(p["split_every"])} if p.get("split_every") else {}),
+        )
+    if op == "groupby_blockwise_sum":
+        from cubed.core.groupby import groupby_blockwise
+
+        dt = np.dtype(p["dtype"])
+        return groupby_blockwise(
+            ins[0], np.asarray(p["by"], dtype=np.int64), func=_gbb_func, axis=p["axis"] % ins[0].ndim, dtype=dt,
+            num_groups=p["num_groups"], groupby_dtype=dt,
+        )
+    if op == "merge_chunks":
+        from cubed.core.ops import merge_chunks
+
+        return merge_chunks(ins[0], tuple(p["chunks"]))
+    if op == "map_blocks_addid":
+        if list(ins[0].chunksize) != list(p["in_chunks"]) and ins[0].size:
+            raise NotImplementedError("harness: input chunking differs from the one the reference assumed")
+        return cubed.map_blocks(_ub_addid, ins[0], dtype=ins[0].dtype)
     if op == "isin":
         return xp.isin(ins[0], ins[1], invert=p.get("invert", False))
     if op == "pad":
@@ -1472,7 +1548,51 @@ class Gen:
 
     def fam_misc(self):
         rng = self.rng
-        op = rng.choice(["diff", "diff", "searchsorted", "isin", "map_blocks", "map_overlap_sum3", "gufunc_mean_last", "gufunc_outer_add"])
+        op = rng.choice(["diff", "diff", "searchsorted", "isin", "map_blocks", "map_overlap_sum3", "gufunc_mean_last", "gufunc_outer_add",
+                         "groupby_sum", "groupby_blockwise_sum", "merge_chunks", "map_blocks_addid"])
+        if op in ("groupby_sum", "groupby_blockwise_sum"):
+            nd = rng.choice([1, 2, 2, 3])
+            dt = rng.choice(["int64", "float64", "int32"])
+            i = self._add(self.new_leaf(ndim=nd, dtype=dt))
+            a = self._vals[i]
+            if a.ndim == 0 or a.size == 0:
+                return False
+            ax = rng.randrange(a.ndim)
+            n = a.shape[ax]
+            # groupby_reduction is not a public array function and leaves the one-group case unspecified (its
+            # generic reduction squeezes every reduced axis of length one, so the group axis disappears when
+            # num_groups == 1): the reduction form is drawn with at least two groups
+            ng = rng.randint(2 if op == "groupby_sum" else 1, max(2, min(6, n + 1)))
+            odt = "float64" if dt == "float64" else "int64"
+            if op == "groupby_sum":
+                lab = [rng.randrange(ng) for _ in range(n)]
+                j = self._add(self.new_leaf(shape=[n], dtype="int64", labels=lab))
+                xc = self._nodes[i]["p"]["chunks"][ax]
+                if self.hostile == 0 or rng.random() < 0.6:
+                    self._nodes[j]["p"]["chunks"] = [xc]
+                pp = {"axis": rng.choice([ax, ax - a.ndim]), "num_groups": ng, "dtype": odt}
+                if rng.random() < 0.4:
+                    pp["split_every"] = draw_split_every(rng, 1)
+                return self._add({"op": "groupby_sum", "in": [i, j], "p": pp}) is not None
+            lab = sorted(rng.randrange(ng) for _ in range(n))
+            pp = {"axis": ax, "num_groups": ng + rng.choice([0, 0, 1]), "dtype": odt, "by": lab}
+            return self._add({"op": "groupby_blockwise_sum", "in": [i], "p": pp}) is not None
+        if op == "merge_chunks":
+            i = self._add(self.new_leaf(ndim=rng.choice([1, 2, 3])))
+            a = self._vals[i]
+            if a.ndim == 0:
+                return False
+            ch = self._nodes[i]["p"]["chunks"]
+            new = [c * rng.choice([1, 1, 2, 3]) for c in ch]
+            if self.hostile and rng.random() < 0.3:
+                new[rng.randrange(len(new))] += 1
+            return self._add({"op": "merge_chunks", "in": [i], "p": {"chunks": new}}) is not None
+        if op == "map_blocks_addid":
+            i = self._add(self.new_leaf(ndim=rng.choice([1, 2, 3]), dtype=rng.choice(["int64", "float64"])))
+            a = self._vals[i]
+            if a.ndim == 0 or a.size == 0:
+                return False
+            return self._add({"op": "map_blocks_addid", "in": [i], "p": {"in_chunks": list(self._nodes[i]["p"]["chunks"])}}) is not None
         if op == "diff":
             i = self.pick_array(lambda v: v.ndim >= 1 and v.dtype.kind in "iuf")
             if i is None:
